@@ -22,7 +22,7 @@ rundemo() {
     return $rc
   fi
   cp "$DEMO" "$PKG/zz_seed_demo_test.go"
-  go test -vet=off -count=1 -run "$RX" "./$PKG" >"$1" 2>&1; rc=$?
+  go test ${SEED_TESTFLAGS:-} -vet=off -count=1 -run "$RX" "./$PKG" >"$1" 2>&1; rc=$?
   rm "$PKG/zz_seed_demo_test.go"
   return $rc
 }
